@@ -54,10 +54,10 @@ def floors(tier):
     ev = {}
     for u in C.UNITS:
         for op in ("floor", "ceil", "round"):
-            ev["%s.%s" % (u, op)] = 300000
-        ev["%s.offset" % u] = 1000
-        ev["%s.range" % u] = 500
-    return {"evaluations": 5000000, "strata": ["days", "hours", "random", "offset", "range"], "events": ev, "distinct_nontrivial": 100000}
+            ev["%s.%s" % (u, op)] = 100000
+        ev["%s.offset" % u] = 300
+        ev["%s.range" % u] = 150
+    return {"evaluations": 2000000, "strata": ["days", "hours", "random", "offset", "range"], "events": ev, "distinct_nontrivial": 100000}
 
 
 def _flush(ctx, mon, stratum, v0, nontrivial):
